@@ -18,7 +18,7 @@ import (
 func init() {
 	Registry["C19"] = &Check{
 		Scenarios: c19Scenarios,
-		Rule: "S in {1,2} (thorough 3) streams; per stream every sequence of <=2 messages over sizes {20 (header only), 40, 1100 bytes} from a list of eight; each stream's bytes cut into <=3 chunks at every choice of <=2 cut points from {inside the first header, header/body border, inside the body, message border, inside the second header, spanning point}; ALL merges (interleavings) of the per-stream chunk sequences; then EOF. The chunks are fed through the in-memory SCTP backend (partial delivery: a read returns at most the buffer size of the head chunk) to a real diam.Conn created with diam.NewConn over diam.NewSCTPConnBackend, i.e. consumed by the library's own reader loop; the handler records (message, MessageStream()) and answers. One deterministic schedule per history (the quantifier is over chunk histories).",
+		Rule: "S in {1,2} streams: per stream every sequence of <=2 messages over sizes {20 (header only), 40, 1100 bytes} from a list of eight; each stream's bytes cut into <=3 chunks at every choice of <=2 cut points from {inside the first header, header/body border, inside the body, message border, inside the second header, spanning point}; ALL merges (interleavings) of the per-stream chunk sequences; then EOF. S = 3: single messages of 20, 40 and 48 bytes per stream with <=1 cut, all merges (thorough: also the general family with <=1 cut). The chunks are fed through the in-memory SCTP backend (partial delivery: a read returns at most the buffer size of the head chunk) to a real diam.Conn created with diam.NewConn over diam.NewSCTPConnBackend, i.e. consumed by the library's own reader loop; the handler records (message, MessageStream()) and answers. One deterministic schedule per history (the quantifier is over chunk histories).",
 		Assume: []string{"the in-memory backend models one-to-one-socket recvmsg partial delivery (hook diam/sctp_verif.go, build tag verif)", "single default schedule per history"},
 		QuickBudget: 150, ThoroughBudget: 2400,
 	}
@@ -228,8 +228,32 @@ func c19Scenarios(tier string) []*Scenario {
 			}
 		}})
 	}
+	// S = 3: single messages of 20, 40 and 48 bytes per stream (two buffered streams whose lengths
+	// differ by less than a header are needed to reorder the demultiplexer's heap), <=1 cut, all merges
+	small := make([][]streamCfg, 3)
+	for si := range small {
+		for _, sz := range []int{20, 40, 48} {
+			all := c19Msg(si, 0, sz)
+			small[si] = append(small[si], streamCfg{sizes: []int{sz}, chunks: [][]byte{all}, desc: fmt.Sprintf("sizes[%d] cuts[]", sz)})
+			for _, o := range []int{10, 20, 30} {
+				if o < sz {
+					small[si] = append(small[si], streamCfg{sizes: []int{sz}, chunks: [][]byte{all[:o], all[o:]}, desc: fmt.Sprintf("sizes[%d] cuts[%d]", sz, o)})
+				}
+			}
+		}
+	}
+	for ai := range small[0] {
+		ai := ai
+		out = append(out, &Scenario{Name: fmt.Sprintf("streams=3/small/first=%d:%s", ai, small[0][ai].desc), Seq: func(r *SeqResult) {
+			for _, b := range small[1] {
+				for _, c := range small[2] {
+					c19Eval(r, []streamCfg{small[0][ai], b, c})
+				}
+			}
+		}})
+	}
 	if maxS >= 3 {
-		// S = 3: a reduced per-stream family (<=1 cut) to keep the product finite
+		// thorough: S = 3 over the general per-stream family restricted to <=1 cut
 		red := make([][]streamCfg, 3)
 		for si := range red {
 			for _, c := range all[si] {
